@@ -95,7 +95,11 @@ func (pr *ActiveTestResp) IDecode(data []byte) error {
 	defer buf.Release()
 
 	pr.Header = smgp.ReadHeader(buf)
-	pr.Reserved = buf.ReadUint8()
+	// SMGP 3.0.3 5.2.2.5.2: Active_Test_Resp has no message body. Accept the
+	// specification's 12-octet form as well as the 13-octet one this package emits.
+	if buf.Remaining() > 0 {
+		pr.Reserved = buf.ReadUint8()
+	}
 
 	return buf.Error()
 }
